@@ -82,6 +82,9 @@ class Session:
         self.violation = None
         self.stderr_bytes = 0
         self.stray_bytes = 0
+        # The game redirects the daemon's standard error and never reads it (mod/PyTrapIC.cs:257): the pipe
+        # takes `stderr_capacity` bytes and then every further write blocks for good.  None = unbounded sink.
+        self.stderr_capacity = sess.get("stderr_capacity")
 
     # -- bookkeeping --------------------------------------------------------------------------
     def _violate(self, cls, msg):
@@ -301,7 +304,23 @@ class Session:
             self.stray_bytes += len(data)
             self.w.event("helper", "wrote-to-daemon-stdout", len(data))
         else:
-            self.stderr_bytes += len(data)
+            self.stderr_bytes += len(data)  # a helper blocking on the full pipe is the helper's problem
+
+    def write_err(self, data):
+        """the daemon process writes to fd 2"""
+        n = len(data)
+        cap = self.stderr_capacity
+        if cap is not None and self.stderr_bytes + n > cap:
+            self.stderr_bytes = max(self.stderr_bytes, cap)
+            self.w.event("daemon", "stderr-full", cap)
+            self.w.probe("stderr-pipe-full")
+            self._violate("blocked-on-stderr",
+                          "the daemon blocks for good writing to standard error: the game never reads that pipe "
+                          "(mod/PyTrapIC.cs: RedirectStandardError, no reader) and it holds %d bytes; %d request "
+                          "lines sent, %d reply lines on the pipe" % (cap, self.next_line, len(self.reply_lines()[0])))
+            raise SimDeadlock("stderr pipe full")
+        self.stderr_bytes += n
+        return n
 
 
 class SimRawIn(io.RawIOBase):
@@ -367,11 +386,7 @@ def make_streams(session, stdin_errors="surrogateescape"):
     stdout = io.TextIOWrapper(io.BufferedWriter(rout, 8192), encoding="utf-8", errors="strict", newline=None,
                               line_buffering=False, write_through=False)
 
-    def err_sink(b):
-        session.stderr_bytes += len(b)
-        return len(b)
-
-    rerr = SimRawOut(err_sink)
+    rerr = SimRawOut(session.write_err)
     stderr = io.TextIOWrapper(io.BufferedWriter(rerr, 8192), encoding="utf-8", errors="backslashreplace",
                               newline=None, line_buffering=True, write_through=False)
     return stdin, stdout, stderr
